@@ -101,6 +101,10 @@ pub struct Env {
     /// every CPI as (caller, callee, metas, data) for harnesses that inspect them
     pub cpi_log: Vec<(Pubkey, Pubkey, Vec<(Pubkey, bool, bool)>, Vec<u8>)>,
     pub log_cpis: bool,
+    /// accounts whose data is recorded after the next instruction ran, whether or not it is committed
+    /// (what the program left in memory when it returned: a failed instruction's view is otherwise discarded)
+    pub observe: Vec<Pubkey>,
+    pub observed: BTreeMap<Pubkey, Vec<u8>>,
 }
 
 thread_local! {
@@ -113,7 +117,25 @@ thread_local! {
         cpi_count: 0,
         cpi_log: vec![],
         log_cpis: false,
+        observe: vec![],
+        observed: BTreeMap::new(),
     });
+}
+
+/// record the in-memory data of `keys` when the next instruction returns (committed or not)
+pub fn observe(keys: &[Pubkey]) {
+    ENV.with(|e| {
+        let mut e = e.borrow_mut();
+        e.observe = keys.to_vec();
+        e.observed.clear();
+    });
+}
+pub fn take_observed() -> BTreeMap<Pubkey, Vec<u8>> {
+    ENV.with(|e| {
+        let mut e = e.borrow_mut();
+        e.observe.clear();
+        std::mem::take(&mut e.observed)
+    })
 }
 
 static PROGRAMS: RwLock<BTreeMap<Pubkey, Entry>> = RwLock::new(BTreeMap::new());
@@ -436,6 +458,17 @@ pub fn process(db: &mut Db, ix: &Instruction, signers: &[Pubkey]) -> std::result
     let res = std::panic::catch_unwind(std::panic::AssertUnwindSafe(|| dispatch(&ix.program_id, &infos, &ix.data)));
     let poisoned = ENV.with(|e| e.borrow().poisoned);
     ENV.with(|e| e.borrow_mut().stack.clear());
+    ENV.with(|e| {
+        let mut e = e.borrow_mut();
+        let keys = e.observe.clone();
+        for k in keys {
+            if let Some(info) = base_infos.get(&k) {
+                if let Ok(d) = info.data.try_borrow() {
+                    e.observed.insert(k, d.to_vec());
+                }
+            }
+        }
+    });
     let out = match res {
         Ok(Ok(())) if !poisoned => {
             let mut lam_before: u128 = 0;
